@@ -2,7 +2,7 @@
 # usage: tools/seedcheck.sh <patch.diff> <ID> [<ID> ...]   [TIER=quick|thorough]
 # Applies a seeded change to /repo, runs the given checks, and always restores /repo.
 set -u
-patch="$1"; shift
+patch="$(realpath "$1")"; shift
 tier="${TIER:-quick}"
 cd /repo || exit 2
 if ! git diff --quiet; then echo "refusing: /repo has uncommitted changes"; exit 2; fi
